@@ -513,6 +513,154 @@ def rule_live_config(ctx, report_unknown=False):
                 name, f["ty"], " and writes" if writers else ""))
 
 
+def _is_const(e):
+    """An expression without any input: literals and arithmetic over literals."""
+    leaves = [x for x in walk(e)]
+    if not leaves:
+        return False
+    for x in leaves:
+        if x[0] in ("arg", "local", "field", "call", "rt", "static", "deref", "index", "cparam", "constx", "deep", "rvx", "discr", "closure", "fnitem"):
+            return False
+    return any(x[0] == "const" for x in leaves)
+
+
+def _const_reaching(facts, fn, e, at, depth=0, seen=None):
+    """A description of a compile-time constant that can reach expression `e` (evaluated at block `at` of fn) on some path,
+    or None.  Values the analysis does not understand count as 'not a constant' (no report)."""
+    seen = seen if seen is not None else set()
+    e = strip_casts(e)
+    if _is_const(e):
+        return "the constant %s" % show(e)
+    if depth > 4:
+        return None
+    if e[0] == "local":
+        if (fn.path, e[1]) in seen:
+            return None
+        seen.add((fn.path, e[1]))
+        for bi, si, d in fn.def_exprs(e[1], at=at):
+            r = _const_reaching(facts, fn, d, bi if bi >= 0 else at, depth + 1, seen)
+            if r:
+                return r
+        return None
+    if e[0] == "field" and strip_casts(e[1])[0] in ("local", "call"):
+        base = strip_casts(e[1])
+        if base[0] == "local":
+            for v, vb in _field_values(fn, base[1], e[2], at):
+                r = _const_reaching(facts, fn, v, vb, depth + 1, seen)
+                if r:
+                    return r
+            return None
+        cb = facts.body(M, str(base[3] or base[1]))
+        if cb is None:
+            return None
+        cf = fn_of(cb)
+        for rb in cf.returns:
+            for v, vb in _field_values(cf, 0, e[2], rb):
+                r = _const_reaching(facts, cf, v, vb, depth + 1, seen)
+                if r:
+                    return "%s (field `%s` of the value %s returns)" % (r, e[2], cf.path.rsplit("::", 1)[-1])
+        return None
+    if e[0] == "call" and not e[2]:
+        return None
+    return None
+
+
+def _field_values(fn, l, name, at, depth=0):
+    """(value expression, block) pairs that field `name` of local l can hold at block `at`: the field of every whole-value
+    definition that reaches `at` and is not overwritten on all paths, plus every assignment to the field itself."""
+    out = []
+    parts = [(bi, si, s) for bi, si, kind, s in fn.partial_defs.get(l, []) if kind == "assign" and len(s["lhs"]["p"]) == 1
+             and isinstance(s["lhs"]["p"][0], dict) and s["lhs"]["p"][0].get("name") == name]
+    pblocks = [bi for bi, _, _ in parts]
+    for bi, si, s in parts:
+        out.append((fn.expr_of_rvalue(s["rv"]), bi))
+    for pbi, psi, kind, t in fn.partial_defs.get(l, []):
+        if kind == "call" and len(t["dest"]["p"]) == 1 and isinstance(t["dest"]["p"][0], dict) and t["dest"]["p"][0].get("name") == name:
+            pblocks.append(pbi)          # assigned from a call: not a constant
+    for bi, si, d in fn.def_exprs(l, at=at):
+        if bi >= 0 and pblocks and bi not in pblocks:
+            r = fn.reach_from(bi, removed_nodes=pblocks)
+            if at not in r:
+                continue                  # overwritten on every path to `at`
+        d = strip_casts(d)
+        if d[0] == "agg" and name in d[2]:
+            out.append((d[2][name], bi if bi >= 0 else at))
+        elif d[0] == "local" and depth < 4:
+            out.extend(_field_values(fn, d[1], name, bi if bi >= 0 else at, depth + 1))
+        elif d[0] == "tuple" and name.isdigit() and int(name) < len(d[1]):
+            out.append((d[1][int(name)], bi if bi >= 0 else at))
+        else:
+            out.append((("field", d, name, None), bi if bi >= 0 else at))
+    return out
+
+
+def rule_scan_window(ctx):
+    """The final score is the maximum over the cells the *last scored row* wrote.  score_row writes `current_row` from a
+    column that depends on the row offsets (an input-dependent position); the cells below that column were not written
+    by this call: they hold what an earlier call left in the slab.  Necessary condition decided here: the position at
+    which the final scan over `current_row` starts is not a compile-time constant on any path (followed through locals,
+    struct fields and the values returned by the matrix routines)."""
+    facts = ctx.facts
+    sr = facts.body(M, "fuzzy_optimal::<impl matrix::MatcherDataView<'_, H>>::score_row")
+    fn = get_fn(facts, M, "fuzzy_optimal::<impl Matcher>::fuzzy_match_optimal")
+    if sr is None:
+        ctx.fail_closed("score_row not found: which cells of current_row a call writes is not known")
+        return
+    srf = fn_of(sr)
+    wstarts = []
+    for bi, t in srf.calls(lambda t: callee(t).endswith("::index_mut") or callee(t).endswith("::index") or callee(t).endswith("get_unchecked_mut") or callee(t).endswith("::get_mut")):
+        a0 = srf.expr_of_operand(t["args"][0])
+        if not any(x[0] == "arg" and x[2] == "current_row" for x in walk(a0)) and "current_row" not in show(a0):
+            continue
+        rng = strip_casts(srf.expr_of_operand(t["args"][1]))
+        if rng[0] == "agg" and "start" in rng[2]:
+            wstarts.append(rng[2]["start"])
+    if not wstarts:
+        ctx.fail_closed("score_row: no `current_row[a..]` window recognised: which cells a call writes is not known")
+        return
+    if all(_is_const(w) for w in wstarts):
+        ctx.ok(site(srf, 0), "score_row writes current_row from a fixed column: no unwritten prefix")
+        return
+    n = 0
+    for bi, t in fn.calls(lambda t: callee(t).rsplit("::", 1)[-1] in ("max", "max_by_key", "max_by", "fold", "reduce", "min_by_key", "last") and "Iterator" in callee(t)):
+        chain = fn.expr_of_operand(t["args"][0])
+        its = [x for x in walk(chain) if x[0] == "call" and (str(x[1]).endswith("[T]>::iter") or str(x[1]).endswith("IntoIterator>::into_iter"))]
+        its = [x for x in its if "current_row" in show(x[2][0])]
+        if not its:
+            continue
+        n += 1
+        src = strip_casts(its[0][2][0])
+        while src[0] in ("ref", "deref"):
+            src = strip_casts(src[1])
+        starts = []
+        if src[0] == "call" and (str(src[1]).endswith("::index") or str(src[1]).endswith("::index_mut")):
+            rng = strip_casts(src[2][1])
+            if rng[0] == "agg" and "start" in rng[2]:
+                starts.append(rng[2]["start"])
+            elif rng[0] == "agg" and "RangeFull" not in rng[1] and "RangeTo" not in rng[1]:
+                ctx.fail_closed("%s: the window of the final scan (%s) is not understood" % (fn.path, show(rng)[:80]))
+                continue
+        for x in walk(chain):
+            if x[0] == "call" and str(x[1]).rsplit("::", 1)[-1] in ("skip", "skip_while", "filter", "filter_map", "rev", "take", "zip", "step_by", "nth"):
+                if str(x[1]).endswith("::skip"):
+                    starts.append(x[2][1])
+                elif not starts:
+                    starts.append(("call", "?", ()))      # restricted in some other way: not decided here, no report
+        key = "%s|scan-window|%d" % (fn.path, n)
+        if not starts:
+            ctx.violation(key, site(fn, bi), "the final scan runs over all of `current_row`: the cells below the first column the last row wrote hold leftovers of earlier calls on this matcher")
+            continue
+        bad = None
+        for s_ in starts:
+            bad = bad or _const_reaching(facts, fn, s_, bi)
+        if bad:
+            ctx.violation(key, site(fn, bi), "the final scan over `current_row` can start at %s, while score_row writes the last row from a column that depends on the row offsets: "
+                          "cells that this call did not write (leftovers of earlier calls on this matcher) take part in the maximum" % bad)
+        else:
+            ctx.ok(site(fn, bi), "the final scan starts at an input-dependent column (%s)" % "; ".join(show(s_)[:60] for s_ in starts))
+    ctx.floor("final scans over current_row in fuzzy_match_optimal", n, 1)
+
+
 def rule_owning_pointers(ctx):
     """A type that owns a raw allocation (raw pointer / NonNull field + a hand-written Drop that frees it) must not
     be duplicable bit-for-bit: a derived Clone/Copy hands two owners the same pointer (use after free on the
@@ -545,6 +693,7 @@ def rule_owning_pointers(ctx):
 def rules(ctx):
     ctx.run_rule("C10.owning-pointers", rule_owning_pointers)
     ctx.run_rule("C10.view-extents", rule_view_extents)
+    ctx.run_rule("C10.scan-window", rule_scan_window)
     ctx.run_rule("C10.slab-guards", rule_slab_guards)
     ctx.run_rule("C10.u16-overflow", rule_u16_overflow)
     ctx.run_rule("C10.truncating-casts", rule_truncating_casts)
